@@ -37,6 +37,7 @@ from typing import Any, cast, Generic, TYPE_CHECKING, TypeVar
 import numpy as np
 
 from cirq import circuits, ops, protocols, study, value, work
+from cirq.sim import simulation_utils
 from cirq.sim.simulation_state_base import SimulationStateBase
 
 if TYPE_CHECKING:
@@ -597,7 +598,9 @@ class SimulatesIntermediateState(
             measurements: dict[str, np.ndarray] = {}
             for step_result in all_step_results:
                 for k, v in step_result.measurements.items():
-                    measurements[k] = np.array(v, dtype=np.uint8)
+                    measurements[k] = np.array(
+                        v, dtype=simulation_utils.digits_dtype([max(v, default=0) + 1])
+                    )
             yield self._create_simulator_trial_result(
                 params=param_resolver,
                 measurements=measurements,
@@ -802,7 +805,10 @@ class StepResult(Generic[TSimulatorState], metaclass=abc.ABCMeta):
         for op in measurement_ops:
             gate = cast(ops.MeasurementGate, op.gate)
             key = gate.key
-            out = np.zeros(shape=(repetitions, len(op.qubits)), dtype=np.int8)
+            out = np.zeros(
+                shape=(repetitions, len(op.qubits)),
+                dtype=simulation_utils.digits_dtype([q.dimension for q in op.qubits], np.int8),
+            )
             inv_mask = gate.full_invert_mask()
             cmap = gate.confusion_map
             for i, q in enumerate(op.qubits):
